@@ -620,14 +620,12 @@ impl<'a> UserModel<'a> {
     /// See also:
     /// * [Model::delete_sheet]
     pub fn delete_sheet(&mut self, sheet: u32) -> Result<(), String> {
-        let worksheet = self.model.workbook.worksheet(sheet)?;
-
-        self.push_diff_list(vec![Diff::DeleteSheet {
-            sheet,
-            old_data: Box::new(worksheet.clone()),
-        }]);
-
+        let old_data = Box::new(self.model.workbook.worksheet(sheet)?.clone());
         let sheet_count = self.model.workbook.worksheets.len() as u32;
+
+        // The history entry is only recorded once the deletion has succeeded
+        self.model.delete_sheet(sheet)?;
+
         // If we are deleting the last sheet we need to change the selected sheet
         if sheet == sheet_count - 1 && sheet_count > 1 {
             if let Some(view) = self.model.workbook.views.get_mut(&self.model.view_id) {
@@ -635,7 +633,7 @@ impl<'a> UserModel<'a> {
             };
         }
 
-        self.model.delete_sheet(sheet)?;
+        self.push_diff_list(vec![Diff::DeleteSheet { sheet, old_data }]);
         Ok(())
     }
 
@@ -698,6 +696,9 @@ impl<'a> UserModel<'a> {
     /// * [Model::set_sheet_state]
     /// * [UserModel::unhide_sheet]
     pub fn hide_sheet(&mut self, sheet: u32) -> Result<(), String> {
+        // Fails for an invalid sheet before anything is changed or recorded
+        let old_value = self.model.workbook.worksheet(sheet)?.state.clone();
+        self.model.set_sheet_state(sheet, SheetState::Hidden)?;
         let sheet_count = self.model.workbook.worksheets.len() as u32;
         for index in 1..sheet_count {
             let sheet_index = (sheet + index) % sheet_count;
@@ -708,13 +709,11 @@ impl<'a> UserModel<'a> {
                 break;
             }
         }
-        let old_value = self.model.workbook.worksheet(sheet)?.state.clone();
         self.push_diff_list(vec![Diff::SetSheetState {
             index: sheet,
             new_value: SheetState::Hidden,
             old_value,
         }]);
-        self.model.set_sheet_state(sheet, SheetState::Hidden)?;
         Ok(())
     }
 
@@ -725,12 +724,12 @@ impl<'a> UserModel<'a> {
     /// * [UserModel::hide_sheet]
     pub fn unhide_sheet(&mut self, sheet: u32) -> Result<(), String> {
         let old_value = self.model.workbook.worksheet(sheet)?.state.clone();
+        self.model.set_sheet_state(sheet, SheetState::Visible)?;
         self.push_diff_list(vec![Diff::SetSheetState {
             index: sheet,
             new_value: SheetState::Visible,
             old_value,
         }]);
-        self.model.set_sheet_state(sheet, SheetState::Visible)?;
         Ok(())
     }
 
@@ -1553,12 +1552,13 @@ impl<'a> UserModel<'a> {
     /// * [Model::set_frozen_rows()]
     pub fn set_frozen_rows_count(&mut self, sheet: u32, frozen_rows: i32) -> Result<(), String> {
         let old_value = self.model.get_frozen_rows_count(sheet)?;
+        self.model.set_frozen_rows(sheet, frozen_rows)?;
         self.push_diff_list(vec![Diff::SetFrozenRowsCount {
             sheet,
             new_value: frozen_rows,
             old_value,
         }]);
-        self.model.set_frozen_rows(sheet, frozen_rows)
+        Ok(())
     }
 
     /// Sets the number of frozen columns in sheet
@@ -1571,12 +1571,13 @@ impl<'a> UserModel<'a> {
         frozen_columns: i32,
     ) -> Result<(), String> {
         let old_value = self.model.get_frozen_columns_count(sheet)?;
+        self.model.set_frozen_columns(sheet, frozen_columns)?;
         self.push_diff_list(vec![Diff::SetFrozenColumnsCount {
             sheet,
             new_value: frozen_columns,
             old_value,
         }]);
-        self.model.set_frozen_columns(sheet, frozen_columns)
+        Ok(())
     }
 
     /// Paste `styles` in the selected area
@@ -2169,8 +2170,8 @@ impl<'a> UserModel<'a> {
             scope,
             old_value,
         }];
-        self.push_diff_list(diff_list);
         self.model.delete_defined_name(name, scope)?;
+        self.push_diff_list(diff_list);
         self.evaluate_if_not_paused();
         Ok(())
     }
@@ -2247,8 +2248,9 @@ impl<'a> UserModel<'a> {
             old_value: self.get_timezone(),
             new_value: timezone.to_string(),
         }];
+        self.model.set_timezone(timezone)?;
         self.push_diff_list(diff_list);
-        self.model.set_timezone(timezone)
+        Ok(())
     }
 
     /// Sets the locale for the model
@@ -2257,8 +2259,9 @@ impl<'a> UserModel<'a> {
             old_value: self.get_locale(),
             new_value: locale.to_string(),
         }];
+        self.model.set_locale(locale)?;
         self.push_diff_list(diff_list);
-        self.model.set_locale(locale)
+        Ok(())
     }
 
     /// Gets the timezone of the model
